@@ -47,6 +47,11 @@ _IDCH = set('abcdefghijklmnopqrstuvwxyzABCDEFGHIJKLMNOPQRSTUVWXYZ0123456789-')
 _REAL = re.compile(r'-?(?:[1-9][0-9]*(?:\.[0-9]*)?|0\.0*[1-9][0-9]*)E(?:0|-?[1-9][0-9]*)\Z')
 
 
+def _symdec(neg, digits, exp10):
+    from pyfront.dec import SymDec
+    return SymDec(neg, digits, exp10)
+
+
 def _branch(cond):
     return E().branch(cond)
 
@@ -273,24 +278,85 @@ class Reader:
                 self.fail('negative arc')
         return SymOid(arcs)
 
+    def _isdigit(self, it):
+        if it is None:
+            return False
+        if isinstance(it, str):
+            return it in '0123456789'
+        if it[0] == 'chr':
+            return _branch(z3.And(z3.UGE(it[1], 0x30), z3.ULE(it[1], 0x39)))
+        return False
+
+    def _is_zero_digit(self, it):
+        return it == '0' if isinstance(it, str) else _branch(it[1] == 0x30)
+
     def real(self):
+        """RealValue; concrete text gives a float, text with symbolic digits a pyfront.dec.SymDec"""
         for word, val in (('PLUS-INFINITY', float('inf')), ('MINUS-INFINITY', float('-inf'))):
             if self.literal(word):
                 return val
-        out = []
-        while isinstance(self.peek(), str) and self.peek() in '0123456789.-+Ee':
-            out.append(self.peek())
+        start = self.pos
+        neg = False
+        if self.is_char(self.peek(), '-'):
+            neg = True
             self.pos += 1
-        nxt = self.peek()
-        if nxt is not None and not isinstance(nxt, str):
-            raise Inconclusive('symbolic content inside a REAL value')
-        s = ''.join(out)
-        if s == '0':
-            return 0.0
-        if not _REAL.match(s):
-            self.fail('malformed RealValue %r' % s)
-        m, e = s.split('E')
-        return float('%se%s' % (m, e))
+        ints, fracs, point = [], [], False
+        while self._isdigit(self.peek()):
+            ints.append(self.peek())
+            self.pos += 1
+        if not ints:
+            self.fail('RealValue expected')
+        if self.is_char(self.peek(), '.'):
+            point = True
+            self.pos += 1
+            while self._isdigit(self.peek()):
+                fracs.append(self.peek())
+                self.pos += 1
+        symbolic = any(not isinstance(x, str) for x in ints + fracs)
+        if not self.is_char(self.peek(), 'E'):
+            if not neg and not point and len(ints) == 1 and self._is_zero_digit(ints[0]):
+                if self.is_idch(self.peek()):
+                    self.fail('characters follow the RealValue "0"')
+                return 0.0 if not symbolic else _symdec(False, [0], 0)
+            self.fail('malformed RealValue (exponent expected)')
+        self.pos += 1
+        it = self.peek()
+        if it is not None and not isinstance(it, str) and it[0] == 'int':
+            exp = it[1]          # decimal rendering of an integer: "0" / ["-"] positive-number
+            self.pos += 1
+            symbolic = True
+        else:
+            ed = []
+            if self.is_char(self.peek(), '-'):
+                ed.append('-')
+                self.pos += 1
+            while isinstance(self.peek(), str) and self.peek() in '0123456789':
+                ed.append(self.peek())
+                self.pos += 1
+            if not isinstance(self.peek(), (str, type(None))):
+                raise Inconclusive('symbolic character inside a RealValue exponent')
+            es = ''.join(ed)
+            if not re.fullmatch(r'0|-?[1-9][0-9]*', es):
+                self.fail('malformed RealValue exponent %r' % es)
+            exp = int(es)
+        if self.is_idch(self.peek()) or self.is_char(self.peek(), '.'):
+            self.fail('characters follow the RealValue')
+        # mantissa = (positive-number [ "." *decimal-digit ]) / ( "0." *("0") positive-number )
+        if self._is_zero_digit(ints[0]):
+            if len(ints) != 1 or not point:
+                self.fail('RealValue mantissa with a leading zero')
+            nonzero = [f for f in fracs if not (isinstance(f, str) and f == '0')]
+            if not nonzero:
+                self.fail('RealValue mantissa "0." without a positive-number')
+            sym = [f[1] for f in nonzero if not isinstance(f, str)]
+            if len(sym) == len(nonzero) and _branch(z3.And([c == 0x30 for c in sym])):
+                self.fail('RealValue mantissa "0." without a positive-number')
+        if not symbolic:
+            text = ''.join(self.it[start:self.pos])
+            m, e = text.split('E')
+            return float('%se%s' % (m, e))
+        digits = [int(x) if isinstance(x, str) else z3.Extract(3, 0, x[1] - 0x30) for x in ints + fracs]
+        return _symdec(neg, digits, exp - len(fracs))
 
     def value(self, td, module):
         rtd, rmod, _ = self.spec.resolve(td, module)
